@@ -1,7 +1,10 @@
 #!/bin/bash
-# usage: tools/ptry.sh <patch.diff> Cxx [Cyy ...]   -- apply a patch to /repo, run the named checks (quick, no evidence), undo
+# usage: [REPO=/tmp/repo_w] tools/ptry.sh <patch.diff> Cxx [Cyy ...]
+# apply a patch to a checkout of the repository (default /repo; a scratch worktree when REPO is set), run the named
+# checks (quick, no evidence), undo
 p=$1; shift
-[ -z "$(git -C /repo status --porcelain --untracked-files=no)" ] || { echo "/repo dirty"; exit 2; }
-git -C /repo apply "$p" || exit 2
-for c in "$@"; do /verif/check $c --tier quick --no-write 2>&1 | grep -v "WARNING conda" | cut -c1-${W:-400}; done
-git -C /repo checkout -- .
+R=${REPO:-/repo}
+[ -z "$(git -C $R status --porcelain --untracked-files=no)" ] || { echo "$R dirty"; exit 2; }
+git -C $R apply "$p" || exit 2
+for c in "$@"; do /verif/check $c --tier quick --no-write --repo $R 2>&1 | grep -v "WARNING conda" | cut -c1-${W:-400}; done
+git -C $R checkout -- .
